@@ -108,9 +108,160 @@ def object_model(effects, result):
     return canon, alias, heap
 
 
+
+def _deep_replace(x, old, new):
+    if x == old:
+        return new
+    if isinstance(x, tuple):
+        return tuple(_deep_replace(y, old, new) for y in x)
+    if isinstance(x, list):
+        return [_deep_replace(y, old, new) for y in x]
+    if isinstance(x, dict):
+        return {k: (_deep_replace(y, old, new) if k != "fn" else y) for k, y in x.items()}
+    return x
+
+
+def _deep_replace_loads(x, old, new):
+    """like _deep_replace, but the left-hand sides of stores keep their lvalue"""
+    if isinstance(x, dict):
+        return {k: (y if k in ("fn", "lv") else _deep_replace_loads(y, old, new)) for k, y in x.items()}
+    if isinstance(x, list):
+        return [_deep_replace_loads(y, old, new) for y in x]
+    return _deep_replace(x, old, new)
+
+
+def _conjuncts(c):
+    if isinstance(c, tuple) and c and c[0] == "op" and c[1] == "&&":
+        return _conjuncts(c[2]) + _conjuncts(c[3])
+    return [c]
+
+
+def _comparison_helper_kind(v, name):
+    """'exact' when the two-parameter helper returns a == b; ('inexact', eps) when it returns |a - b| < eps (or <=) for a positive
+    literal eps (then a = 0, b = eps/2 are told equal); None when its body is something else"""
+    fs = [f for f in v.fns(name) if f.get("defined", True)] if hasattr(v, "fns") else []
+    if len(fs) != 1 or len(fs[0].params) != 2:
+        return None
+    try:
+        eff, st, ex = run_function(v, fs[0], hooks=Hooks())
+    except Exception:
+        return None
+    rets = [x for x in flat(eff) if x["e"] == "return"]
+    if len(rets) != 1 or rets[0].get("val") is None:
+        return None
+    a, b = (sym.sym(p_["n"]) for p_ in fs[0].params)
+    val = rets[0]["val"]
+    if val in (("op", "==", a, b), ("op", "==", b, a), ("fop", "==", a, b), ("fop", "==", b, a)):
+        return "exact"
+    if val[0] in ("op", "fop") and val[1] in ("<", "<=") and val[3][0] in ("int", "float"):
+        lhs, eps = val[2], val[3][1]
+        d1, d2 = ("fop", "-", a, b), ("fop", "-", b, a)
+        if lhs[0] == "call" and lhs[1] in ("fabs", "std::fabs", "abs", "std::abs", "fabsl", "fabsf") and len(lhs[2]) == 1 and lhs[2][0] in (d1, d2):
+            try:
+                if float(eps) > 0:
+                    return ("inexact", float(eps))
+            except (TypeError, ValueError):
+                return None
+    return None
+
+
+def resolve_cache_lookups(v, eff):
+    """A reader helper that returns EITHER the object it has just built from the stream OR an object found in a process-wide cache
+    (the executor's `multi-return` value).  For the round trip the cached object may stand for the fresh one exactly when the guard
+    of the lookup pins every field of the record to the value just read by an exact comparison; then the fresh object is
+    substituted.  A field compared through a tolerance (or not at all) is a violation with a witness: a second import whose value
+    differs from an earlier one inside the tolerance comes back with the earlier value.  Anything else: undecided.
+    -> (effects, [problem texts])"""
+    from sa.pipeline import AnalysisBroken
+    problems = []
+    for node in [x for x in flat(eff) if x["e"] == "inlined"]:
+        unk = ("unk", "multi-return:%s" % node["name"])
+        if node.get("ret") != unk:
+            continue
+        body = node["body"]
+        fresh = [x["val"] for x in body if x["e"] == "return" and isinstance(x.get("val"), tuple) and x["val"][0] == "new"]
+        loops = [x for x in body if x["e"] == "while" and x.get("kind") == "forrange"]
+        other = [x for x in body if x["e"] == "return" and x not in [y for y in body if y["e"] == "return" and y.get("val") in fresh]]
+        if len(fresh) != 1 or len(loops) != 1 or other:
+            raise AnalysisBroken("%s returns one of several objects (line %s) and is not a cache lookup of the modelled form: "
+                                 "which object the reader hands on is not decided" % (node["name"], node.get("l")))
+        A = fresh[0]
+        rec = next((r for r in v.records.values() if r["name"] == A[1]), None) if hasattr(v, "records") else None
+        lp = loops[0]
+        hits = []       # (guard, returned value)
+
+        def scan(effs, conds):
+            for x in effs:
+                if x["e"] == "if":
+                    scan(x["then"], conds + [x["cond"]])
+                    scan(x["else"], conds)
+                elif x["e"] == "return":
+                    hits.append((conds, x.get("val")))
+                elif x["e"] in ("while", "loop"):
+                    raise AnalysisBroken("%s: nested loop in a cache lookup: not decided" % node["name"])
+        scan(lp["body"], [])
+        # the values the fresh object's fields hold
+        fields = {}
+        for x in flat(body):
+            if x["e"] == "store" and x["op"] == "=" and sym.root_of(x["lv"]) == A and x["lv"][0] == "fld":
+                fields[x["lv"][2]] = x["val"]
+        if rec is None or not fields or not hits:
+            raise AnalysisBroken("%s: cache lookup whose fresh object's fields are not visible: not decided" % node["name"])
+        for conds, val in hits:
+            if not (isinstance(val, tuple) and val[0] == "var"):
+                raise AnalysisBroken("%s: the lookup returns %s: not decided" % (node["name"], sym.show(val) if val else val))
+            cj = [c for g in conds for c in _conjuncts(g)]
+            for f in rec["fields"]:
+                fname = f["n"]
+                if fname not in fields:
+                    raise AnalysisBroken("%s: field %s of the fresh %s has no visible value: not decided" % (node["name"], fname, A[1]))
+                cached = ("fld", ("idx", val, I(0)), fname)
+                want = fields[fname]
+                state = None
+                for c in cj:
+                    if c in (("op", "==", cached, want), ("op", "==", want, cached)):
+                        state = "exact"
+                        break
+                    if c[0] == "call" and len(c[2]) == 2 and set(c[2]) == {cached, want}:
+                        k_ = _comparison_helper_kind(v, c[1])
+                        if k_ is None:
+                            raise AnalysisBroken("%s: field %s is compared through %s, whose meaning is not decided" % (node["name"], fname, c[1]))
+                        state = k_
+                        if k_ == "exact":
+                            break
+                if state == "exact":
+                    continue
+                if state is None:
+                    problems.append("%s (line %s) returns a cached %s without comparing its field %s with the value just read: a second import "
+                                    "that differs in %s only comes back with the first one's value" % (node["name"], lp.get("l"), A[1], fname, fname))
+                else:
+                    problems.append("%s (line %s) returns a cached %s when field %s differs from the value just read by less than %g (%s): "
+                                    "importing %s = 0 and then %s = %g in one process gives the second object the value 0" % (
+                                        node["name"], lp.get("l"), A[1], fname, state[1], "a tolerance, not equality", fname, fname, state[1] / 2))
+        # the lookup itself performs no I/O (checked) and its outcome is now represented by the fresh object: drop the loop from the view
+        for x in flat(lp["body"]):
+            if x["e"] == "call" and not (re.match(r"^(delete_|destroy_|free$|operator delete)", x["name"]) or
+                                         _comparison_helper_kind(v, x["name"]) is not None):
+                raise AnalysisBroken("%s: the cache lookup calls %s (line %s): not decided" % (node["name"], x["name"], x.get("l")))
+            if x["e"] == "store" and not (x["lv"][0] == "var" or x.get("local")):
+                raise AnalysisBroken("%s: the cache lookup writes %s (line %s): not decided" % (node["name"], sym.show(x["lv"]), x.get("l")))
+        node["body"] = [x for x in body if x is not lp]
+        eff = _deep_replace(eff, unk, A)
+        # loads of the fresh object's fields that the executor could not fold while the object was unknown (fields written once)
+        once = {f_: val_ for f_, val_ in fields.items()
+                if sum(1 for x in flat(eff) if x["e"] == "store" and sym.root_of(x["lv"]) == A and x["lv"][0] == "fld" and x["lv"][2] == f_) == 1}
+        for f_, val_ in once.items():
+            for load in {sym.arrow(A, f_), sym.fld(sym.idx(A, I(0)), f_), ("fld", ("idx", A, I(0)), f_)}:
+                eff = _deep_replace_loads(eff, load, val_)
+    return eff, problems
+
+
 def view(v, fn, deep):
     hooks = DeepHooks() if deep else IOHooks()
     eff, st, ex = run_function(v, fn, args=bind_args(fn), hooks=hooks)
+    cache_problems = []
+    if deep:
+        eff, cache_problems = resolve_cache_lookups(v, eff)
     ops = extract_ops(eff, "r" if deep else "w")
     secs = attach_reader_details(eff, ops)
     result = None
@@ -118,7 +269,7 @@ def view(v, fn, deep):
         if x["e"] == "return" and x.get("val") is not None:
             result = x["val"]
     roots = {a: fn.params[i]["t"] for i, a in enumerate(bind_args(fn)) if a is not None}
-    return {"ops": ops, "eff": eff, "secs": secs, "result": result, "hooks": hooks, "roots": roots}
+    return {"ops": ops, "eff": eff, "secs": secs, "result": result, "hooks": hooks, "roots": roots, "cache_problems": cache_problems}
 
 
 def erase_streams(struct):
@@ -318,7 +469,7 @@ def compare(chk, v, tname, W, R, where, vn):
                     p_ = p_[2]
                 if p_[0] == "prop":
                     guards.setdefault((p_[1], p_[2]), []).append(rw(o_))
-    problems = []
+    problems = list(R.get("cache_problems", ()))
     nontriv = [0]
     expanded = []
 
